@@ -18,6 +18,14 @@ check("C13",
       "Coq proof (induction, lia/nia) + extracted-model correspondence vs Python and Rust",
       "DESIGN.md 5 C13")
 
+check("C17",
+      "All duplicated tables/constants are re-read from the working tree on every run by a fail-closed translator (Python tables by import, Rust const tables by tokenising the source) into Gen/Tables.v; "
+      "each clause (256 opcode entries under the documented Python->Rust mapping, PRE tables, single-addressable sets, four register-size declarations, sub-register layout, IMEM offsets, vectors, address-space constants, view segments, snapshot blob layout) "
+      "is a decidable statement closed by vm_compute in the Coq kernel: the finite space is compared completely, no sampling.",
+      "Trusted: Coq kernel, translators/tr_tables.py, the mapping entry_to_rust transcribed from scripts/generate_llama_opcodes.py. Known findings: Rust OPCODES 0xBA-0xBE operand width drift; Python RESET intrinsic reads 0xFFFFA.",
+      "Coq vm_compute over tables regenerated from source each run (exhaustive)",
+      "DESIGN.md 5 C17")
+
 NOT_APPLICABLE = {}
 
 def build():
